@@ -32,6 +32,8 @@ var fragments = []struct{ name, text string }{
 	{"struct-odd-spacing", "type X$I struct {\nA int\n  B   string `json:\"b\"`\n}\n"},
 	{"var", "var V$I = 1\n"},
 	{"single-spec-group", "var (\n x$I = 1\n)\n"},
+	{"single-spec-group-on-one-line", "var ( y$I = 1 )\n"},
+	{"import-like-one-line-const-group", "const ( q$I = 1; r$I = 2 )\n"},
 	{"octal-literal", "const C$I = 0755\n"},
 	{"doc-comment", "// D$I is documented.\nfunc D$I() {}\n"},
 	{"go-noinline", "//go:noinline\nfunc N$I() {}\n"},
@@ -444,6 +446,18 @@ func run(c *core.Ctx) {
 			}
 		}
 		rec(nil)
+		// runs of one fragment followed by another one (formatters that merge or split adjacent declarations
+		// may need several passes to settle): f f f g and f f f f, first module
+		if mi == 0 {
+			for f := 0; f < nf; f++ {
+				items = append(items, Item{Frags: []int{f, f, f, f}})
+				for g := 0; g < nf; g++ {
+					if g != f {
+						items = append(items, Item{Frags: []int{f, f, f, g}})
+					}
+				}
+			}
+		}
 		// the other routes by which the same fragments reach the writer (first module, import set 0)
 		if mi == 0 {
 			for _, seq := range [][]int{{huge}, {0, huge}, {huge, 0}, {6, huge, 3}, {16, huge}, {huge, huge}} {
@@ -451,7 +465,7 @@ func run(c *core.Ctx) {
 			}
 			n := len(items)
 			for _, it := range items[:n] {
-				if it.Imports == 0 && (len(it.Frags) <= 2 || it.Frags[1] == huge) {
+				if it.Imports == 0 && (len(it.Frags) <= 2 || (len(it.Frags) == 3 && it.Frags[1] == huge)) {
 					for r := 1; r < len(routes); r++ {
 						items = append(items, Item{Frags: it.Frags, Route: r})
 					}
@@ -482,7 +496,9 @@ func run(c *core.Ctx) {
 			if err == nil {
 				kept = append(kept, it)
 			} else {
-				c.Count("unparseable_concatenations_left_out", 1)
+				if c.Shard == 0 {
+					c.Count("unparseable_concatenations_left_out", 1)
+				}
 			}
 		}
 		items = kept
@@ -520,7 +536,7 @@ func replay(c *core.Ctx, raw json.RawMessage) {
 func init() {
 	core.Register(&core.Prop{
 		ID: "C01", Level: "model_checking", Run: run, Replay: replay,
-		Rule: "every sequence of <=2 (thorough <=3) fragments from a 22-item menu (declarations of every kind, doc/block/free comments, directives, octal literal, raw strings, odd line breaks, blank lines, CRLF, missing trailing newline) x import-reference sets (std, third-party, module-local, clashing last segments, unsafe) on the first module, shorter sequences on 6 more (module path, go directive) combinations, package name != directory name; every written file is read back: parses, opens with a comment naming the generator, package clause, gofmt fixed point, gofumpt fixed point (module language version), and normalise(file) == normalise(reference assembly built by the harness). Histories: every ordered pair of fragments as (long file, then short) and (short, then long) regeneration over the existing file. Non-trivial = >=2 fragments or imports; states = distinct (module, length, import set, run kind)",
+		Rule: "every sequence of <=2 (thorough <=3) fragments from a 27-item menu (plus runs f f f g, f f f f) (declarations of every kind, doc/block/free comments, directives, octal literal, raw strings, odd line breaks, blank lines, CRLF, missing trailing newline) x import-reference sets (std, third-party, module-local, clashing last segments, unsafe) on the first module, shorter sequences on 6 more (module path, go directive) combinations, package name != directory name; every written file is read back: parses, opens with a comment naming the generator, package clause, gofmt fixed point, gofumpt fixed point (module language version), and normalise(file) == normalise(reference assembly built by the harness). Histories: every ordered pair of fragments as (long file, then short) and (short, then long) regeneration over the existing file. Non-trivial = >=2 fragments or imports; states = distinct (module, length, import set, run kind)",
 		Assumptions: []string{
 			"cases on which Execute returns an error (fragments that do not concatenate to parseable Go) are outside the property and skipped (counted)",
 			"normalisation = strip header + gofumpt to a fixed point: formatting may change tokens (0755 -> 0o755, //foo -> // foo, ungrouping), so token equality would be a false alarm",
